@@ -1,20 +1,64 @@
+// Package simnet is the simulated network: in-memory net.Conn pairs with
+// seeded segmentation, delays, stalls, resets, half-closes and deadlines on
+// the simulator's fake clock, plus addressable listeners and a dial policy.
+// Every Read/Write/Accept/Dial is a sim op (a park point of the scheduler).
 package simnet
 
 import (
 	"errors"
 	"net"
+	"os"
+	"strconv"
+	"syscall"
 	"time"
 
 	"verif/simrt"
 )
 
-// Net is the simulated network of one run.
-type Net struct {
-	sim *simrt.Sim
+// Verdict is the network's answer to a dial.
+type Verdict int
+
+const (
+	Accept  Verdict = iota // connect succeeds
+	Refuse                 // ECONNREFUSED at once
+	Timeout                // no answer: the dialer's timeout elapses (or 75 s)
+	Slow                   // accept after a delay
+)
+
+// DialInfo is handed to the dial policy.
+type DialInfo struct {
+	Addr    string
+	Timeout time.Duration
 }
 
+// Net is the simulated network of one run.
+type Net struct {
+	sim       *simrt.Sim
+	listeners map[string]*Listener
+	// Policy decides the outcome of each dial (nil = accept when a listener
+	// exists, refuse otherwise). It may draw from the tape and record probes.
+	Policy func(d DialInfo) (Verdict, time.Duration)
+	// OnConnect, when set, is called with the server side of every accepted
+	// dial whose address has no listener (harness-scripted peers).
+	OnConnect func(addr string, server *Conn)
+	nextPort  int
+	Dials     int
+	// Seg: default segmentation mode for new conns (see Conn.Seg).
+	Seg int
+}
+
+// New installs a network into the simulation.
+//
+//go:norace
+func New(s *simrt.Sim) *Net {
+	n := &Net{sim: s, listeners: map[string]*Listener{}, nextPort: 40000}
+	s.Data["simnet"] = n
+	return n
+}
+
+//go:norace
 func current() *Net {
-	t := simrt.Current()
+	t := simrt.CurrentOrLazy()
 	if t == nil {
 		return nil
 	}
@@ -24,10 +68,151 @@ func current() *Net {
 	return nil
 }
 
-func (n *Net) dial(network, address string, timeout time.Duration) (net.Conn, error) {
-	return nil, errors.New("simnet: not implemented")
+type timeoutErr struct{ op string }
+
+//go:norace
+func (e *timeoutErr) Error() string { return "simnet: " + e.op + ": i/o timeout" }
+
+//go:norace
+func (e *timeoutErr) Timeout() bool { return true }
+
+//go:norace
+func (e *timeoutErr) Temporary() bool { return true }
+
+// ErrTimeout mirrors os.ErrDeadlineExceeded semantics (net.Error, Timeout()).
+//
+//go:norace
+func errTimeout(op string) error {
+	return &net.OpError{Op: op, Net: "tcp", Err: &timeoutErr{op}}
 }
 
-func (n *Net) listen(network, address string) (net.Listener, error) {
-	return nil, errors.New("simnet: not implemented")
+var ErrReset = &net.OpError{Op: "read", Net: "tcp", Err: os.NewSyscallError("read", syscall.ECONNRESET)}
+var ErrClosed = &net.OpError{Op: "use", Net: "tcp", Err: errors.New("use of closed network connection")}
+var errRefused = &net.OpError{Op: "dial", Net: "tcp", Err: os.NewSyscallError("connect", syscall.ECONNREFUSED)}
+var ErrBrokenPipe = &net.OpError{Op: "write", Net: "tcp", Err: os.NewSyscallError("write", syscall.EPIPE)}
+
+//go:norace
+func tcpAddr(s string) *net.TCPAddr {
+	h, p, err := net.SplitHostPort(s)
+	if err != nil {
+		return &net.TCPAddr{IP: net.IPv4(10, 255, 255, 1), Port: 1}
+	}
+	port, _ := strconv.Atoi(p)
+	ip := net.ParseIP(h)
+	if ip == nil {
+		ip = net.IPv4(10, 255, 255, 2)
+	}
+	return &net.TCPAddr{IP: ip, Port: port}
 }
+
+//go:norace
+func (n *Net) dial(network, address string, timeout time.Duration) (net.Conn, error) {
+	t := simrt.CurrentOrLazy()
+	s := n.sim
+	s.BkLock()
+	n.Dials++
+	n.nextPort++
+	local := "10.250.0.1:" + strconv.Itoa(n.nextPort)
+	l := n.listeners[address]
+	s.BkUnlock()
+	v, d := Accept, time.Duration(0)
+	if n.Policy != nil {
+		v, d = n.Policy(DialInfo{Addr: address, Timeout: timeout})
+	} else if l == nil && n.OnConnect == nil {
+		v = Refuse
+	}
+	t.Park(simrt.OpNetDial, 0, nil, nil)
+	switch v {
+	case Refuse:
+		s.Fault("dial_refused")
+		return nil, errRefused
+	case Timeout:
+		s.Fault("dial_timeout")
+		if timeout <= 0 {
+			timeout = 75 * time.Second
+		}
+		simrt.Sleep(timeout)
+		return nil, errTimeout("dial")
+	case Slow:
+		s.Fault("dial_slow")
+		if timeout > 0 && d >= timeout {
+			simrt.Sleep(timeout)
+			return nil, errTimeout("dial")
+		}
+		simrt.Sleep(d)
+	}
+	c, srv := n.Pair(local, address)
+	if l != nil {
+		s.BkLock()
+		closed := l.closed
+		if !closed {
+			l.backlog = append(l.backlog, srv)
+		}
+		s.BkUnlock()
+		if closed {
+			return nil, errRefused
+		}
+		s.Kick()
+	} else if n.OnConnect != nil {
+		n.OnConnect(address, srv)
+	} else {
+		return nil, errRefused
+	}
+	return c, nil
+}
+
+// Listener is a simulated listening socket.
+type Listener struct {
+	net     *Net
+	addr    string
+	backlog []*Conn
+	closed  bool
+}
+
+// Listen creates an addressable endpoint ("10.1.0.3:8080").
+//
+//go:norace
+func (n *Net) Listen(addr string) *Listener {
+	l := &Listener{net: n, addr: addr}
+	n.sim.BkLock()
+	n.listeners[addr] = l
+	n.sim.BkUnlock()
+	return l
+}
+
+//go:norace
+func (n *Net) listen(network, address string) (net.Listener, error) {
+	return n.Listen(address), nil
+}
+
+//go:norace
+func (l *Listener) Accept() (net.Conn, error) {
+	t := simrt.CurrentOrLazy()
+	if t == nil || t.Killed() {
+		return nil, ErrClosed
+	}
+	t.Park(simrt.OpNetAccept, 0, func() bool { return len(l.backlog) > 0 || l.closed }, nil)
+	s := l.net.sim
+	s.BkLock()
+	defer s.BkUnlock()
+	if len(l.backlog) == 0 {
+		return nil, ErrClosed
+	}
+	c := l.backlog[0]
+	l.backlog = l.backlog[1:]
+	return c, nil
+}
+
+//go:norace
+func (l *Listener) Close() error {
+	s := l.net.sim
+	s.BkLock()
+	l.closed = true
+	delete(l.net.listeners, l.addr)
+	s.BkUnlock()
+	s.Kick()
+	return nil
+}
+
+//go:norace
+func (l *Listener) Addr() net.Addr { return tcpAddr(l.addr) }
